@@ -140,6 +140,9 @@ type c02State struct {
 	plainIDs bool
 	// clockAdvanced: a history op has simulated the passage of time (see replayAfter)
 	clockAdvanced bool
+	// mainIssued: the main request yielded a token (so its presentations' nonces have certainly been seen)
+	mainIssued bool
+	replayN    int
 }
 
 func (s *c02State) nonce() string {
